@@ -41,7 +41,7 @@ def make_spec(task):
     for t in spec['transitions']:
         tid = t['tid']
         if tid % 3 == 1:
-            t['action'] += "; P('note', 'u%d'); notify('u%d', w=%d)" % (tid % 2, tid % 2, tid)
+            t['action'] += "; P('note', 'u%d'); notify('u%d', w=%d, z=None)" % (tid % 2, tid % 2, tid)
         if tid % 3 == 2:
             t['action'] += "; P('send', 'd%d'); send('d%d', delay=5)" % (tid, tid)
         if tid % 4 == 0:
@@ -69,8 +69,12 @@ def ev_sig(e):
 def m_entry(e):
     """what the recording listener logs for a meta-event"""
     d = []
-    for k in sorted(e.data):
-        v = e.data[k]
+    for k in sorted(set(e.data) | set(ATTRS.get(e.name, ()))):
+        # the documented way to read a parameter of a meta-event is attribute access (event.state, event.target...)
+        try:
+            v = getattr(e, k)
+        except AttributeError:
+            v = '<%s has no attribute %s>' % (e.name, k)
         d.append((k, ev_sig(v) if isinstance(v, Event) else v))
     return ('m', e.name, tuple(d))
 
